@@ -151,7 +151,7 @@ def _loop_specs(inp, props):
 def compile_ivp(ctx, ns, specs):
     np_ = npshim.NP()
     ns.update({"np": np_})
-    return harness.define(ctx, ns, "bldfm.solver", "ivp_solver", loop_specs=specs, label=LABEL)
+    return harness.define(ctx, ns, "bldfm.solver", "ivp_solver", loop_specs=specs, label=LABEL if specs else LABEL + "/unrolled")
 
 
 def generate_bookkeeping(ctx, props):
@@ -318,3 +318,56 @@ def generate(ctx):  # noqa: F811
     # every property that uses the contract IVP at the two call sites in S re-verifies it in its own run
     generate_bookkeeping(ctx, {"C01", "C02", "C03", "C04", "C05", "C06", "C07", "C10", "C11", "C12", "C15"})
     generate_step(ctx, {"C01", "C04", "C05", "C07", "C12"})
+
+
+# ================================================= bounded-unrolled symbolic check (labelled bounded)
+def generate_unrolled(ctx, props, nz=3, nlv=2):
+    """Structure-independent complement of the loop-invariant proof, for a FIXED small number of nodes and
+    levels but symbolic level values, orders, profiles, wavenumbers and initial states: slice k of a
+    multi-level call equals what the single-level call for levels[k] returns (C10's own statement), and the
+    single-level call for the top node returns the final state.  The loops run natively (concrete ranges), so
+    any loop structure is accepted.  Reported under `bounded`, never counted as proved."""
+    if not ctx.wants(props):
+        return
+    ns = harness.namespace("bldfm.solver")
+    f = compile_ivp(ctx, ns, None)
+
+    def thunk(run):
+        run.scope = LABEL + "[unrolled nz=%d,nlvls=%d]" % (nz, nlv)
+        run.props = set(props)
+        nxy = sym.fresh_int("nxy")
+        run.assume(nxy >= 1)
+        p0 = arrays.fresh_array("fftp0", [nxy], "complex")
+        q0 = arrays.fresh_array("fftq0", [nxy], "complex")
+        prof = tuple(arrays.fresh_array(n, [nz], "float") for n in ("u", "v", "Kx", "Ky", "Kz"))
+        z = arrays.fresh_array("z", [nz], "float")
+        Lx, Ly = arrays.fresh_array("Lx", [nxy], "float"), arrays.fresh_array("Ly", [nxy], "float")
+        lv = [sym.fresh_int("lev%d" % k) for k in range(nlv)]
+        for l in lv:
+            run.assume((l >= 0) & (l <= nz - 1))
+        for a in range(nlv):
+            for b in range(a + 1, nlv):
+                run.assume(lv[a] != lv[b])      # "any subset and any order": distinct levels
+        levels = arrays.from_list(lv)
+        pi, qi, P, Q = harness.call(run, f, (p0, q0), prof, z, levels, Lx, Ly).value
+        c = sym.fresh_int("c")
+        rng = [(c >= 0) & (c < nxy)]
+        for k in range(nlv):
+            spi, sqi, SP, SQ = harness.call(run, f, (p0, q0), prof, z, arrays.from_list([lv[k]]), Lx, Ly).value
+            for nm, a, b in (("p", P, SP), ("q", Q, SQ)):
+                ob = run.oblige("multi-level slice %d == single-level request (%s)" % (k, nm), loops.scalar_eq(a.at(k, c), b.at(0, c)),
+                                kind="post", view="value", assuming=rng, meta={"bounded": "nz=%d, nlvls=%d" % (nz, nlv)})
+        tp, tq, TP, TQ = harness.call(run, f, (p0, q0), prof, z, arrays.from_list([Num(nz - 1)]), Lx, Ly).value
+        run.oblige("single-level request for the top node returns the final state (p)", loops.scalar_eq(TP.at(0, c), tp.at(c)), kind="post",
+                   view="value", assuming=rng, meta={"bounded": "nz=%d" % nz})
+        run.oblige("single-level request for the top node returns the final state (q)", loops.scalar_eq(TQ.at(0, c), tq.at(c)), kind="post",
+                   view="value", assuming=rng, meta={"bounded": "nz=%d" % nz})
+    ctx.explore(LABEL + ":unrolled", thunk, props, max_paths=2000)
+
+
+_generate_inv = generate
+
+
+def generate(ctx):  # noqa: F811
+    _generate_inv(ctx)
+    generate_unrolled(ctx, {"C10", "C01"})
